@@ -411,8 +411,7 @@ def run(ctx):
             judge(ctx, text, case, True, sigs, e['file'])
             ctx.count('docs:A')
         n += 1
-        if k == 3:
-            ctx.case(n=0, sample={'map': e['file'], 'faults': kinds, 'text_head': text[:500]})
+        ctx.sample({'map': e['file'], 'faults': kinds, 'text_head': text[:500]})
     ctx.case(n=n, sigs=sorted(sigs))
 
 
